@@ -3,6 +3,7 @@ import GorumsV.Props.C05
 import GorumsV.Props.C13
 import GorumsV.Tie.C01
 import GorumsV.Tie.C09
+import GorumsV.Props.NetFail
 /-!
   Tie for C07 (loop-level half): the tree's loops treat an arrival as a failure iff it
   carries an error (Tie/C01), the loop parameters are the good ones (Tie/C02), and a failed
@@ -25,6 +26,9 @@ end GorumsV.Tie.C07
 
 section Audit
 open GorumsV.Tie.C07 GorumsV.C07
+#print axioms GorumsV.NetP.net_at_most_one_error
+#print axioms GorumsV.NetP.net_error_is_last
+#print axioms GorumsV.NetP.chan_reachable
 #print axioms tree_tolerates_failures
 #print axioms GorumsV.Tie.C01.qc_errGuard_good
 #print axioms GorumsV.Tie.C01.async_errGuard_good
